@@ -8,6 +8,31 @@ def nontrivial(prog, f):
     return f['apply'] >= 1 and f['rep_gt1'] >= 1 and f['sub'] >= 1
 
 
+def forced(rng, tier):
+    """repeated blocks (n >= 3) whose content starts with two PARALLEL sub-circuits on disjoint qubits with equal counts, one of
+    them followed inside the block, the other one the last to end (seeded change C06-m4: a node lookup keyed by operation
+    equality conflates the two value-equal sub-circuits of the later copies, the copies then overlap)."""
+    out = []
+    gates = ['Rx90', 'Ry90', 'Rx180', 'Hadamard']
+    for i in range(30 if tier == 'quick' else 600):
+        n = rng.choice([3, 3, 4])
+        k = rng.choice([1, 1, 2])
+        qa, qb = rng.sample(range(3), 2)
+        p = [['new', 'f1'], ['new', f'f{n}'], ['new', f'f{k}'], ['new', f'f{k}']]
+        for _ in range(rng.randint(1, 2)):
+            p.append(['op', 2, rng.choice(gates), [qa], 'M', None, 0, 0, [], None])
+        for _ in range(rng.randint(2, 4)):
+            p.append(['op', 3, rng.choice(gates), [qb], 'M', None, 0, 0, [], None])
+        first, second = (2, 3) if rng.random() < 0.7 else (3, 2)
+        p += [['sub', 1, first], ['sub', 1, second]]
+        p.append(['op', 1, rng.choice(gates), [qa], 'M', None, 0, 0, [], None])      # follows the short sub-circuit
+        if rng.random() < 0.3:
+            p.append(['op', 1, rng.choice(gates), [qa], 'M', None, 0, 0, [], None])
+        p += [['sub', 0, 1], ['list', 0], ['apply', 0], ['list', 0], ['apply', 0], ['list', 0]]
+        out.append(p)
+    return out
+
+
 SPEC = streamcheck.StreamSpec(
     PROP, probes=['C06', 'C02m'],
     cfg=progs.GenConfig(static_durations=True, n_cmds=(6, 36), p_list=0.05, p_new=0.16, p_sub=0.16, p_apply=0.10, p_flatten=0.0, p_copy=0.0,
@@ -15,6 +40,7 @@ SPEC = streamcheck.StreamSpec(
     n_quick=1200, n_thorough=40000,
     nontrivial=nontrivial,
     extra_check=libclause.c06_library,
+    extra_programs=forced,
     rule='random build programs with nesting <= 4 and counts 1-3 at every level (fixed and registry-provided); at every '
          'apply_modifiers: all counts 1 afterwards, operations outside repeated blocks untouched (identity, signature, '
          'link), a block whose last-ending operation is a relation leaf occupies n*T, second application changes nothing; '
